@@ -75,7 +75,7 @@ def generate(rng, tier):
         base = [rng.choice([1, 0, 2, -1, "a", None]) for _ in range(n)]
         yield {"fam": "nested", "vals": base, "i": rng.randrange(n), "new": rng.choice([5, 7, "b", None, 2.5]),
                "other": [rng.choice([7, 8]) for _ in range(n)], "path": rng.choice(["view", "cell", "none"])}
-    for i in range(1500 if tier == "quick" else 24000):
+    for i in range(4000 if tier == "quick" else 24000):
         yield {"fam": "history", "seed": rng.randrange(1 << 30), "nsteps": 12 if tier == "quick" or i % 3 else 36}
 
 
